@@ -72,7 +72,9 @@ def cases(draw, tier="quick"):
     if P["mode"] == "delegate" and draw(st.integers(0, 3)) == 0:
         P["reenter"] = [draw(st.integers(0, 1)), draw(st.sampled_from(["welcome", "code", "key", "verifier",
                                                                       "versions", "msg"])), "close"]
-    P["gets"] = "early"
+    P["gets"] = draw(st.sampled_from(["early", "early", "after"]))
+    P["get_after_closed"] = True
+    P["hs_fail"] = draw(st.sampled_from([[0, 0], [0, 0], [1, 0], [0, 1], [2, 1]]))
     n = draw(st.integers(0, 220))
     P["tape"] = draw(st.binary(min_size=n, max_size=n))
     return P
@@ -257,6 +259,13 @@ def run_case(P):
             if len(names) != 1:
                 res.violate("once", "side %d: close() Deferreds disagree: %r" % (i, names),
                             input_class="close-results-disagree")
+        if P["mode"] == "deferred":
+            # nothing is delivered after closed: a get_*() obtained after the closed notification must fail
+            for what, entries in rec.gets[i].items():
+                for en in entries:
+                    if en["after_closed"] and en["result"] is not None and en["result"][0] == "ok":
+                        res.violate("once", "side %d: get_%s() obtained after the closed notification returned %r" % (
+                            i, what, en["result"][1]), input_class="delivered-after-closed:%s" % what)
         v = rec.verdict[i]
         if not (v == "happy" or isinstance(v, WormholeError)):
             res.violate("verdict", "side %d: undocumented verdict %r" % (i, v), input_class="undocumented-verdict",
